@@ -27,6 +27,13 @@ def run(chk):
     rng = random.Random(chk.seed * 2750159 + 14)
     quick = chk.tier == "quick"
     viol = []
+    tie_broken = None
+    try:
+        common.build_gridprobe()
+    except common.TieError as e:
+        # gwb-grid/main.cc changed so that the harness around its ThreadPool no longer compiles: part (1) cannot be tied;
+        # parts (2) and (3) still search for a failing input
+        tie_broken = e
     # ---- (1) slices -------------------------------------------------------------------------------
     cases = []
     nmax, pmax = (48, 16) if quick else (300, 40)
@@ -36,11 +43,13 @@ def run(chk):
     for _ in range(300 if quick else 0):
         s = rng.randint(0, 50)
         cases.append((s, s + rng.randint(0, 300), rng.randint(1, 40)))
+    if tie_broken is not None:
+        cases = []
     lines = ["pfor %d %d %d" % c for c in cases]
-    impl = common.run_probe(lines, exe="gridprobe")
+    impl = common.run_probe(lines, exe="gridprobe") if cases else []
     body = "\n".join("let () = out_str (String.concat \" \" (\"ok\" :: List.concat_map (fun (a, b) -> [string_of_int (int_of_nat a); string_of_int (int_of_nat b)]) (parallel_for (nat_of_int %d) (nat_of_int %d) (nat_of_int %d))))" % c
                      for c in cases)
-    model = common.run_model(body, tag="c14")
+    model = common.run_model(body, tag="c14") if cases else []
     chk.evaluations += len(cases)
 
     class _C:
@@ -107,10 +116,13 @@ def run(chk):
     shutil.rmtree(gdir, ignore_errors=True)
     os.makedirs(gdir)
     exe = os.path.join(common.BUILD, "bin", "gwb-grid")
-    for gi in range(2 if quick else 10):
+    for gi in range(4 if quick else 12):
         wj, sph = area_world(rng, spherical=False, cross=True)
+        # a layer under everything with a velocity, so that the 3-component data set is not all zero
+        wj["features"].insert(0, {"model": "mantle layer", "name": "flow", "coordinates": [[-1e6, -1e6], [1e6, -1e6], [1e6, 1e6], [-1e6, 1e6]],
+                                  "velocity models": [{"model": "uniform raw", "velocity": [0.01, -0.02, 0.03]}]})
         sanitize_numbers(wj)
-        dim = rng.choice([2, 3])
+        dim = 3 if gi % 2 == 0 else 2
         nx, ny, nz = rng.choice([(6, 4, 4), (10, 2, 6), (4, 4, 2)])
         grid = ["grid_type = cartesian", "dim = %d" % dim, "compositions = 2", "vtu_output_format = ASCII",
                 "x_min = -4e5", "x_max = 4e5", "y_min = -4e5", "y_max = 4e5", "z_min = 6e5", "z_max = 1000e3",
@@ -135,6 +147,10 @@ def run(chk):
     shutil.rmtree(gdir, ignore_errors=True)
     for what, d in viol[:5]:
         chk.violation(what, d)
+    if tie_broken is not None and not viol:
+        chk.violation("the harness around gwb-grid's ThreadPool (%s) no longer compiles against /repo: the correspondence Apps.parallel_for <-> "
+                      "ThreadPool::parallel_for cannot be checked; the concurrent queries and the gwb-grid -j runs found no failing input" % tie_broken.harness,
+                      {"kind": "tie", "correspondence": tie_broken.harness, "log_tail": str(tie_broken)[-2500:]}, found_input=False)
     if bad and not viol:
         for i in bad[:3]:
             chk.violation("correspondence Apps.parallel_for <-> ThreadPool::parallel_for broken",
